@@ -531,7 +531,7 @@ long World::do_connect(int s, bool last_destroys, std::string const &n)
 void World::reenter(long cid, unsigned arg)
 {
   int const s = reentry.sig;
-  switch (reentry.kind % 5)
+  switch (reentry.kind % 6)
   {
   case 0:
   {
@@ -611,14 +611,19 @@ void World::reenter(long cid, unsigned arg)
     }
     return;
   }
-  default:
+  case 4:
+  case 5:
   {
-    // call another signal from inside the callback
+    // call another signal from inside the callback - or (5) the signal being called itself: one
+    // level of recursion (the inner call's callbacks do nothing special)
+    bool const same = reentry.kind % 6 == 5;
     for (unsigned k = 0; k < SIGS; ++k)
     {
-      unsigned const t = static_cast<unsigned>((reentry.target + k) % SIGS);
-      if (static_cast<int>(t) == s || !sigs[t] || sig_moved_from[t])
+      unsigned const t = same ? static_cast<unsigned>(s) : static_cast<unsigned>((reentry.target + k) % SIGS);
+      if ((!same && static_cast<int>(t) == s) || !sigs[t] || sig_moved_from[t])
         continue;
+      if (same)
+        ctx.probe("reentrant_recursive_call");
       std::vector<long> outer_invoked;
       std::vector<unsigned> outer_args;
       outer_invoked.swap(invoked);
@@ -664,6 +669,8 @@ void World::reenter(long cid, unsigned arg)
     }
     return;
   }
+  default:
+    return;
   }
 }
 
@@ -1269,7 +1276,7 @@ void generate(sim::Rng &rng, sim::Plan &p, bool)
     {
       op.set("arg", static_cast<long>(rng.below(100))).set("init", static_cast<long>(rng.below(1000)));
       if (reentrant && rng.chance(1, 2))
-        op.set("re", static_cast<long>(rng.below(3))).set("rk", static_cast<long>(rng.below(5))).set("rt", static_cast<long>(rng.below(24)));
+        op.set("re", static_cast<long>(rng.below(3))).set("rk", static_cast<long>(rng.below(6))).set("rt", static_cast<long>(rng.below(24)));
     }
     if (fault_pct != 0 && rng.below(100) < fault_pct)
     {
